@@ -1,168 +1,3 @@
-// Kani harnesses for repartition/distributor_channels.rs (property C15), BOUNDED and SEQUENTIAL:
-// every history of K operations (send-poll / recv-poll / drop sender / drop receiver / clone sender)
-// over two channels, each operation executed to completion on the real code, checked against a
-// small reference model after every step.  Thread interleavings inside an operation are NOT explored.
+// (no registered harnesses: see /verif/attempts and DESIGN.md section 9.4)
 #[allow(unused_qualifications, unused_imports, dead_code, clippy::all)]
-mod verif_kani {
-    use super::*;
-    use std::task::Wake;
-
-    fn stub_lock_slow(_m: &parking_lot::RawMutex, _t: Option<std::time::Instant>) -> bool { kani::assume(false); true }
-    fn stub_unlock_slow(_m: &parking_lot::RawMutex, _f: bool) { kani::assume(false); }
-
-    struct CountWaker(AtomicUsize);
-    impl Wake for CountWaker {
-        fn wake(self: Arc<Self>) { self.0.fetch_add(1, Ordering::SeqCst); }
-        fn wake_by_ref(self: &Arc<Self>) { self.0.fetch_add(1, Ordering::SeqCst); }
-    }
-    fn woken(w: &Arc<CountWaker>) -> bool { w.0.load(Ordering::SeqCst) > 0 }
-
-    const N: usize = 2; // channels
-    const QMAX: usize = 4;
-
-    /// reference model of one channel
-    #[derive(Clone, Copy)]
-    struct MChan { q: [u8; QMAX], len: usize, senders: usize, rx_alive: bool }
-
-    struct Parked { w: Arc<CountWaker>, ch: usize, is_sender: bool }
-
-    fn model_empty_count(m: &[MChan; N]) -> usize {
-        let mut c = 0; let mut i = 0;
-        while i < N { if m[i].rx_alive && m[i].len == 0 && m[i].senders > 0 { c += 1; } i += 1; }
-        c
-    }
-
-    fn run_history<const K: usize>() {
-        let (txs, rxs) = channels::<u8>(N);
-        let gate = Arc::clone(&txs[0].gate);
-        let chans: [Arc<Channel<u8>>; N] = [Arc::clone(&txs[0].channel), Arc::clone(&txs[1].channel)];
-        let mut it = txs.into_iter();
-        let mut tx: [Option<DistributionSender<u8>>; N] = [it.next(), it.next()];
-        let mut it = rxs.into_iter();
-        let mut rx: [Option<DistributionReceiver<u8>>; N] = [it.next(), it.next()];
-        let mut extra: Option<(DistributionSender<u8>, usize)> = None;
-        let mut m = [MChan { q: [0; QMAX], len: 0, senders: 1, rx_alive: true }; N];
-        let mut parked: Vec<Parked> = Vec::new();
-
-        let mut step = 0;
-        while step < K {
-            let op: u8 = kani::any();
-            let c: usize = kani::any();
-            kani::assume(op < 5 && c < N);
-            let gate_closed_before = model_empty_count(&m) == 0;
-            match op {
-                0 => {
-                    // one poll of a fresh send future (through the original sender, or the clone if the original is gone)
-                    let sender: Option<&DistributionSender<u8>> = match (&tx[c], &extra) {
-                        (Some(t), _) => Some(t),
-                        (None, Some((t, ch))) if *ch == c => Some(t),
-                        _ => None,
-                    };
-                    if let Some(t) = sender {
-                        let v: u8 = kani::any();
-                        let w = Arc::new(CountWaker(AtomicUsize::new(0)));
-                        let waker = Waker::from(Arc::clone(&w));
-                        let mut cx = Context::from_waker(&waker);
-                        let mut fut = t.send(v);
-                        let r = Pin::new(&mut fut).poll(&mut cx);
-                        match r {
-                            Poll::Ready(Ok(())) => {
-                                assert!(m[c].rx_alive, "C15.send.succeeds_only_while_receiver_alive");
-                                assert!(!gate_closed_before, "C15.send.blocked_while_no_open_channel_is_empty");
-                                kani::assume(m[c].len < QMAX);
-                                m[c].q[m[c].len] = v; m[c].len += 1;
-                            }
-                            Poll::Ready(Err(SendError(x))) => {
-                                assert!(!m[c].rx_alive, "C15.send.fails_only_once_receiver_is_gone");
-                                assert!(x == v, "C15.send.error_hands_the_value_back");
-                            }
-                            Poll::Pending => {
-                                assert!(m[c].rx_alive && gate_closed_before, "C15.send.pending_only_when_gate_closed");
-                                parked.push(Parked { w: Arc::clone(&w), ch: c, is_sender: true });
-                            }
-                        }
-                        std::mem::forget(fut);
-                    }
-                }
-                1 => {
-                    if let Some(r) = rx[c].as_mut() {
-                        let w = Arc::new(CountWaker(AtomicUsize::new(0)));
-                        let waker = Waker::from(Arc::clone(&w));
-                        let mut cx = Context::from_waker(&waker);
-                        let mut fut = r.recv();
-                        let res = Pin::new(&mut fut).poll(&mut cx);
-                        match res {
-                            Poll::Ready(Some(x)) => {
-                                assert!(m[c].len > 0 && m[c].q[0] == x, "C15.recv.fifo_exactly_once");
-                                let mut i = 1; while i < m[c].len { m[c].q[i - 1] = m[c].q[i]; i += 1; }
-                                m[c].len -= 1;
-                            }
-                            Poll::Ready(None) => {
-                                assert!(m[c].len == 0 && m[c].senders == 0, "C15.recv.eos_only_after_all_senders_gone_and_drained");
-                            }
-                            Poll::Pending => {
-                                assert!(m[c].len == 0 && m[c].senders > 0, "C15.recv.pending_only_when_empty_and_senders_alive");
-                                parked.push(Parked { w: Arc::clone(&w), ch: c, is_sender: false });
-                            }
-                        }
-                    }
-                }
-                2 => {
-                    if let Some(t) = tx[c].take() { drop(t); m[c].senders -= 1; }
-                    else if matches!(&extra, Some((_, ch)) if *ch == c) { let (t, _) = extra.take().unwrap(); drop(t); m[c].senders -= 1; }
-                }
-                3 => {
-                    if let Some(r) = rx[c].take() { drop(r); m[c].rx_alive = false; m[c].len = 0; }
-                }
-                _ => {
-                    if extra.is_none() { if let Some(t) = &tx[c] { extra = Some((t.clone(), c)); m[c].senders += 1; } }
-                }
-            }
-            // ---- invariants after every operation ----
-            let mut i = 0;
-            while i < N {
-                let st = chans[i].state.lock();
-                assert!(st.data.is_some() == m[i].rx_alive, "C15.inv.data_present_iff_receiver_alive");
-                if let Some(d) = st.data.as_ref() {
-                    assert!(d.len() == m[i].len, "C15.inv.queue_length_matches_history");
-                    let mut j = 0; while j < m[i].len { assert!(d[j] == m[i].q[j], "C15.inv.queue_contents_in_send_order"); j += 1; }
-                }
-                assert!(st.recv_wakers.is_some() == (m[i].senders > 0), "C15.inv.recv_wakers_present_iff_senders_alive");
-                assert!(chans[i].n_senders.load(Ordering::SeqCst) == m[i].senders, "C15.inv.sender_count");
-                i += 1;
-            }
-            let ec = model_empty_count(&m);
-            assert!(gate.empty_channels.load(Ordering::SeqCst) == ec, "C15.inv.empty_channel_counter_exact");
-            assert!(gate.send_wakers.lock().is_some() == (ec == 0), "C15.inv.gate_closed_iff_no_open_empty_channel");
-            // wake-up obligations (no lost wake-up): a parked sender is woken by the step that opens the gate or closes
-            // its channel; a parked receiver by the step that delivers data or removes the last sender
-            let mut p = 0;
-            while p < parked.len() {
-                let e = &parked[p];
-                if e.is_sender {
-                    if ec > 0 || !m[e.ch].rx_alive { assert!(woken(&e.w), "C15.wake.parked_sender_woken_when_gate_opens_or_channel_closes"); }
-                } else if m[e.ch].len > 0 || m[e.ch].senders == 0 {
-                    assert!(woken(&e.w), "C15.wake.parked_receiver_woken_on_data_or_eos");
-                }
-                p += 1;
-            }
-            step += 1;
-        }
-        kani::cover!(parked.len() >= 1);
-        kani::cover!(m[0].len >= 2);
-        std::mem::forget(parked);
-        std::mem::forget((tx, rx, extra, gate, chans));
-    }
-
-    #[kani::proof]
-    #[kani::unwind(7)]
-    #[kani::stub(parking_lot::RawMutex::lock_slow, stub_lock_slow)]
-    #[kani::stub(parking_lot::RawMutex::unlock_slow, stub_unlock_slow)]
-    fn c15_histories_k3_bounded() { run_history::<3>(); }
-
-    #[kani::proof]
-    #[kani::unwind(8)]
-    #[kani::stub(parking_lot::RawMutex::lock_slow, stub_lock_slow)]
-    #[kani::stub(parking_lot::RawMutex::unlock_slow, stub_unlock_slow)]
-    fn c15_histories_k4_bounded() { run_history::<4>(); }
-}
+mod verif_kani {}
